@@ -637,13 +637,16 @@ func (x *Exec) applyContract(fr *Frame, st *State, instr ssa.Instruction, callee
 		x.assumeIn(st, and("(> "+res.L[0]+" 0)", "(> (birth "+res.L[0]+") "+pre.now+")"))
 	}
 	pctx := &EvalCtx{x: x, names: post, st: st, old: pre, oldNames: env}
-	for _, e := range spec.Ensures {
+	for _, e := range append(append([]Clause{}, spec.Ensures...), spec.Effects...) {
 		v, err := pctx.eval(e.E, sortBool)
 		if err != nil || len(v.L) != 1 {
 			x.bindingFailure(fmt.Sprintf("ensures %q of %s: %v", e.Src, spec.Key, err))
 			continue
 		}
 		x.assumeIn(st, v.One())
+	}
+	if len(spec.Effects) > 0 && !spec.Ext {
+		x.assume1("definitional ghost effect of " + spec.Key + " (meaning of the ghost state, not checked against a body)")
 	}
 	return res
 }
